@@ -48,6 +48,21 @@ def mut_suite(name, quick, thorough):
     }
 
 
+CRON_HEADER = "From GK Require Import Cron.\nOpen Scope string_scope.\nOpen Scope list_scope.\nOpen Scope Z_scope."
+
+
+def cron_suite(name, mode, m_proj, v_proj, quick, thorough, length=40, extra=None):
+    return {
+        "name": name, "cmd": ["cron", "--mode", mode, "--len", str(length)] + (extra or []), "header": CRON_HEADER, "hist_type": "ccase",
+        "eval": "Definition M := Eval vm_compute in cron_mismatches %s cases 0.\nPrint M.\n"
+                "Definition V := Eval vm_compute in cron_mismatches %s cases 0.\nPrint V." % (m_proj, v_proj),
+        "diag": "Eval vm_compute in cron_expect (nth {k} cases (mkCC [] [])) {i}.",
+        "show": "Eval vm_compute in map fst (cc_hist (nth {k} cases (mkCC [] []))).",
+        "sig": "false",
+        "quick": quick, "thorough": thorough,
+    }
+
+
 SUITES = {
     "C01": {"suites": [
         repo_suite("c01-inmem", "inmem", "c01", "p_C01", {"n": 25, "shards": 8}, {"n": 200, "shards": 16, }),
@@ -72,6 +87,16 @@ SUITES = {
     "C19": {"suites": [
         repo_suite("c19-inmem", "inmem", "c01", "p_C19", {"n": 20, "shards": 6}, {"n": 150, "shards": 16}, extra=["--scribble"]),
         repo_suite("c19-ent", "ent", "c13", "p_C19", {"n": 15, "shards": 6}, {"n": 100, "shards": 16}, extra=["--scribble"]),
+        cron_suite("c19-cron", "c15", "false true", "false true", {"n": 10, "shards": 4}, {"n": 60, "shards": 16}, extra=["--scribble"]),
+    ]},
+    "C15": {"suites": [
+        cron_suite("c15-cron", "c15", "false true", "false true", {"n": 12, "shards": 12}, {"n": 100, "shards": 16}),
+    ], "rule": "entry sets over a pool of cron expressions (5/6 fields, @every, TZ=, JsonExp, colliding times, priorities, deterministic mutators), histories of Pop/Peek/Schedule/EditTask; popped tasks and Schedule() compared with occurrence streams computed from separately parsed robfig schedules"},
+    "C16": {"suites": [
+        cron_suite("c16-cron", "c16", "false true", "false true", {"n": 12, "shards": 12}, {"n": 100, "shards": 16}),
+    ]},
+    "C17": {"suites": [
+        cron_suite("c17-cron", "c17", "true true", "true false", {"n": 12, "shards": 12}, {"n": 100, "shards": 16}),
     ]},
     "C18": {"suites": [
         mut_suite("c18-mut", {"n": 400, "shards": 8}, {"n": 3000, "shards": 16}),
